@@ -27,10 +27,10 @@ META = {
                    'backslashes, NUL), the column skeleton read from the generated CREATE TABLE text is the id column '
                    'followed by the declared columns in order under their db names with NOT NULL iff notNone/alternateID '
                    'and UNIQUE iff unique/alternateID; instantiated at the tables regenerated from /repo on every run. '
-                   'Two declared exceptions are kept as _full_FALSE counter-theorems with replayed witnesses (MySQL ENUM, '
-                   'MaxDB foreign key).  Plus: foreign-key action = cascade setting (sqlite inline clause), link table '
-                   'created by exactly one class of a pair, create-if-missing / drop-if-present idempotent over a '
-                   'catalogue model, addColumn/delColumn preserve the other columns, Style name-mapping lemmas.'),
+                   'All 7 dialects at full strength (MaxDB foreign keys with their table-level clause included).  Plus: the '
+                   'extracted ON DELETE texts read back as the cascade setting, link table created by exactly one class of a '
+                   'pair (counter-theorem for a join declared by the later class only), create-if-missing / drop-if-present '
+                   'idempotent over a catalogue model, addColumn/delColumn preserve the other columns, Style name-mapping lemmas.'),
     'level_note': ('Trusted: Lean kernel; extractor vlib/extractors/ddl.py; the DDL reader Model/DdlRead.lean is the '
                    'specification side (written from SQL lexical rules; cross-checked against an independent Python reader '
                    'and, for SQLite, against the engine through PRAGMA introspection); MySQL/PostgreSQL/Firebird/MSSQL/'
@@ -43,11 +43,14 @@ META = {
     'modelled': ['SQLite engine (executed, not verified)', 'the six other servers: text only',
                  'sqlrepr string-literal escaping is modelled locally (per-character map) and tied by string equality',
                  'index / join-table / ALTER TABLE constraint texts are hand-modelled and tied by string equality'],
-    'assumptions': ['well-formed identifiers: db names / table names are non-empty words without blanks, quotes, commas or '
-                    'parentheses and are not constraint keywords; defaultSQL is a self-contained keyword-free fragment for the '
-                    'reader (decidable hypothesis `Col.wf`)',
-                    'maxdb foreign-key columns and the MySQL ENUM-without-None case are excluded from the _partial theorem '
-                    '(explicit hypothesis `supported`) and reported as findings'],
+    'assumptions': ['well-formed identifiers (decidable hypothesis `declWF`): table / id / db names and foreign-key target names are '
+                    'non-empty words without blanks, quotes, commas or parentheses and are not constraint keywords; defaultSQL is a '
+                    'self-contained keyword-free fragment for the reader; the renderer did not refuse the declaration (EnumCol on '
+                    'MaxDB, EnumCol without values)',
+                    'the reader convention `bs` (backslash escapes inside literals) is only assumed compatible with the dialect that '
+                    'quotes the enum values (`bsOK`); with the plain reader no condition is needed',
+                    'catalogue / addColumn-delColumn theorems are about the models in Model/DdlCat.lean (tied by the executed SQLite scenarios, '
+                    'not by a driver stream)'],
     'exhaustive': False,
 }
 
@@ -518,6 +521,9 @@ def sqlite_oracle(ctx, spec, cls):
     if any(c['kind'][0] == 'i' and c['kind'][2] and (c['kind'][3] or c['kind'][4]) for c in spec['cols']):
         ctx.count('sqlite-execution-skipped:INT(n) UNSIGNED/ZEROFILL is MySQL-only syntax')
         return
+    if any(c['kind'][0] == 'e' and any(v is not None and '\x00' in v for v in c['kind'][1]) for c in spec['cols']):
+        ctx.count('sqlite-execution-skipped:NUL in an enum value (the sqlite3 driver refuses NUL in a statement)')
+        return
     try:
         cls.createTable()
     except Exception as e:
@@ -906,6 +912,17 @@ def corpus():
         spec([col('x', ('s', 'dateTime')), col('y', ('s', 'time')), col('z', ('s', 'timestamp'), nn=True)], style='p',
              table='explicit_tbl', idSize='TINY'),
     ]
+    import json
+    import os
+    path = os.path.join(os.path.dirname(os.path.dirname(os.path.abspath(__file__))), 'corpus', 'C14', 'witnesses.json')
+    if os.path.exists(path):
+        for case in json.load(open(path))['cases']:
+            cols = []
+            for c in case['cols']:
+                k = c['kind']
+                kind = tuple([k[0]] + [x for x in k[1:]])
+                cols.append(col(c['name'], kind, **{kk: vv for kk, vv in c.items() if kk not in ('name', 'kind')}))
+            out.append(spec(cols, [t() for _ in range(case.get('targets', 0))]))
     for s in out:
         s['indexes'] = []
     out[10]['indexes'] = [{'name': 'ix0', 'unique': True, 'cols': [0, 2]}, {'name': 'ix1', 'unique': False, 'cols': [1]}]
@@ -1009,7 +1026,7 @@ def run(ctx):
         for (a, b), o in zip(pairs, outs):
             ctx.compare('link-table ownership: model = the name comparison of _getJoinsToCreate', {'self': a, 'other': b},
                         o, '0' if a > b else '1')
-    n = ctx.budget(260, 12000)
+    n = ctx.budget(1000, 20000)
     for i in range(n):
         spec = gen_spec(rng, plain_enum=(rng.random() < 0.85))
         run_spec(ctx, spec, micro=rng.random() < 0.5, mx=rng.random() < 0.5, sample=(i % 50 == 0))
